@@ -587,6 +587,16 @@ func checkReportedHash(p *engine.Prog, r *engine.Report) {
 						}
 					}
 				}
+				// or it starts as a copy of the installed one (which carries its hash), changed in other fields only
+				for _, rr := range *al.Referrers() {
+					s2, ok := rr.(*ssa.Store)
+					if !ok || s2.Addr != ssa.Value(al) {
+						continue
+					}
+					if u, ok := s2.Val.(*ssa.UnOp); ok && isInstalledConfig(p, u.X, fCur, 0) && engine.InstrDominates(s2, st) {
+						hashed = true
+					}
+				}
 				if !hashed {
 					probs = append(probs, "the ConfigInfo installed at "+p.Rel(st.Pos())+" ("+engine.FuncName(fn)+") never gets a ConfigHash: the process would report an empty hash while running a configuration")
 				}
@@ -644,4 +654,31 @@ func controlsC16(p *engine.Prog) []Control {
 		return off(a.Pos()), off(a.End()), "&hashstructure.HashOptions{SlicesAsSets: true}", true
 	})
 	return []Control{c1, c2}
+}
+
+// isInstalledConfig: v is the currently installed ConfigInfo: a load of the manager's field, or the result of a method
+// whose every result is such a load.
+func isInstalledConfig(p *engine.Prog, v ssa.Value, fCur *types.Var, depth int) bool {
+	if depth > 2 {
+		return false
+	}
+	if _, ok := loadOfField(v, fCur); ok {
+		return true
+	}
+	if call, ok := v.(*ssa.Call); ok {
+		callee := call.Call.StaticCallee()
+		if callee == nil || callee.Blocks == nil {
+			return false
+		}
+		n := 0
+		for _, ret := range returnsOf(callee) {
+			rv := returnedValue(ret, 0)
+			if rv == nil || !isInstalledConfig(p, rv, fCur, depth+1) {
+				return false
+			}
+			n++
+		}
+		return n > 0
+	}
+	return false
 }
